@@ -22,6 +22,19 @@ theorem error_is_inert (t : TreeTable) (h : t.Inv cmp) (op : Op) (m : Mem)
     (t.step cmp op m).2.1 = t ∧ (t.step cmp op m).2.2.1 = m :=
   C03.rejected_inert t h op m st hst h1 h2
 
+/-- `CC_ERR_ALLOC` is not a rejection in the sense of C16, but it is inert on the table as well: tree,
+colours and size field are unchanged and the ledger holds what it held (this is `C08Tree.atomic`) -/
+theorem alloc_error_keeps_table (ho : TotalOrder cmp) (t : TreeTable) (h : t.Inv cmp) (op : Op) (m : Mem)
+    (hm : TreeTable.Owns t m) (hf : (t.step cmp op m).1.st = some .errAlloc) :
+    (t.step cmp op m).2.1 = t ∧
+    TreeTable.liveOf (t.step cmp op m).2.2.1 t.triple = TreeTable.liveOf m t.triple ∧
+    (t.step cmp op m).2.2.1.fault = m.fault := by
+  have s := C03.step_refines ho t h op m hm
+  have e := (s.inert .errAlloc hf (by decide)).1
+  have l := s.ledger
+  rw [e] at l
+  exact ⟨e, by omega, s.nofault⟩
+
 /-- iterator calls: `CC_ITER_END` and the `CC_ERR_KEY_NOT_FOUND` of a repeated `iter_remove` leave
 table, iterator and ledger unchanged -/
 theorem iter_error_is_inert (t : TreeTable) (it : TreeIter) (op : IterOp) (m : Mem)
